@@ -89,6 +89,8 @@ def history(s, hidx):
             s.custom_violation('completed-without-roDelete', {'after_kind': kind},
                                {'type': 'transition', 'pre_xml': ev['pre_xml'], 'msg_xml': ev['msg_xml']}
                                if ev else {}, msg_kind=kind)
+    if rng.random() < 0.3:
+        typed_misuse(s, ro, cur, rng, ids, pool)
     if rng.random() < 0.15:
         return      # a history that never ends
     # the roDelete may be addressed to another running-order ID: it completes this one all the same
@@ -102,6 +104,101 @@ def history(s, hidx):
         s.custom_violation('roDelete-did-not-complete', {}, {'type': 'transition', 'pre_xml': ev['pre_xml'],
                                                              'msg_xml': ev['msg_xml']} if ev else {})
     suffix_all_kinds(s, ro, cur, rng, ids, pool, hidx)
+
+
+def typed_misuse(s, ro, cur, rng, ids, pool):
+    """A RunningOrderEnd object built by its typed constructor from a document that holds no roDelete:
+    neither `ro + m` nor `m.merge(ro)` may leave the running order completed (it received no roDelete)."""
+    kind = K.weighted_kinds(rng, K.kind_weights(1, 1, 0.5, 0.0))
+    doc = gen.rand_message(rng, Abs(cur), kind, 350, ids, pool=pool)
+    how = rng.choice(['add', 'merge'])
+    judge_typed_misuse(s, cur, doc, how)
+
+
+def judge_typed_misuse(s, cur, doc, how):
+    import warnings as Wn
+    EV.STATE['quiet'] = EV.STATE.get('quiet', 0) + 1
+    try:
+        try:
+            ro = s.mt.RunningOrder.from_string(cur)
+            m = s.mt.RunningOrderEnd.from_string(doc)
+        except Exception:
+            return
+        before, err = str(ro), None
+        with Wn.catch_warnings():
+            Wn.simplefilter('ignore')
+            try:
+                if how == 'add':
+                    ro + m
+                else:
+                    m.merge(ro)
+            except Exception as e:
+                err = e
+        after, completed = str(ro), bool(ro.completed)
+    finally:
+        EV.STATE['quiet'] -= 1
+        EV.drain()
+    s.evaluations += 1
+    s.note_sig(('typed-misuse', how, type(err).__name__ if err else 'ok', completed))
+    s.hist['typed_misuse'] += 1
+    if completed or after != before:
+        s.custom_violation('completed-without-roDelete',
+                           {'how': 'ro + RunningOrderEnd.from_string(doc)' if how == 'add' else 'RunningOrderEnd.from_string(doc).merge(ro)',
+                            'exc': type(err).__name__ if err else None, 'completed': completed, 'changed': after != before},
+                           {'type': 'typed-misuse', 'ro_txt': cur, 'doc': doc, 'how': how}, msg_kind='RunningOrderEnd', status=how)
+
+
+def completed_base(s, cidx):
+    """A collection whose "roCreate" is a completed running order that was written out, plus further
+    messages - a roDelete among them: it can be built (one roDelete message), and merging it adds every
+    message to a completed running order."""
+    rng = s.rng('cbase', cidx)
+    pool = gen.text_pool('plain')
+    ids = gen.Ids('B%d.' % cidx)
+    ro_txt = gen.rand_ro(rng, n_stories=rng.randint(1, 4), pool=pool, message_id=1)
+    base = s.load(ro_txt)
+    base, _e, _w = s.add(base, s.load(B.msg_doc('roDelete', 2)))
+    EV.drain()
+    docs = [str(base)]
+    state = Abs(ro_txt)
+    for k in range(rng.randint(0, 3)):
+        docs.append(gen.rand_message(rng, state, K.weighted_kinds(rng, K.kind_weights(1, 1, 0.3, 0)), 10 + k, ids, pool=pool))
+    docs.append(B.msg_doc('roDelete', 50))
+    rng.shuffle(docs)
+    judge_completed_base(s, docs, rng.choice(['strings', 'files']))
+
+
+def judge_completed_base(s, docs, how):
+    import shutil
+    import tempfile
+    tmpdir = tempfile.mkdtemp(prefix='verif-c07-')
+    try:
+        for strict in (True, False):
+            for inc in (False, True):
+                mc, cerr = K.make_collection(s, docs, how, inc, tmpdir)
+                s.evaluations += 1
+                wit = {'type': 'completed-base', 'docs': docs, 'how': how}
+                if mc is None:
+                    # whether such a list is accepted is C11's claim (checked there); nothing to merge here
+                    s.note_sig(('completed-base', how, strict, inc, 'rejected:' + type(cerr).__name__))
+                    s.hist['completed_base_rejected'] += 1
+                    continue
+                s.hist['completed_base_merged'] += 1
+                before = str(mc)
+                err, wn = K.merge_collection(s, mc, strict)
+                EV.drain()
+                n = wn.count('MosMergeNonStrictWarning')
+                s.note_sig(('completed-base', how, strict, inc, type(err).__name__ if err else 'ok', min(n, 5)))
+                det = {'strict': strict, 'exc': type(err).__name__ if err else None, 'non_strict_warnings': n,
+                       'readers': len(mc.mos_readers)}
+                if str(mc) != before or not mc.completed:
+                    s.custom_violation('merge-changed-a-completed-collection', det, wit, status='completed-base')
+                if strict and (err is None or 'MosCompletedMergeError' not in [c.__name__ for c in type(err).__mro__]):
+                    s.custom_violation('strict-merge-into-completed-running-order-not-refused', det, wit, status='completed-base')
+                if not strict and (err is not None or n != len(mc.mos_readers)):
+                    s.custom_violation('non-strict-merge-did-not-report-every-message', det, wit, status='completed-base')
+    finally:
+        shutil.rmtree(tmpdir, ignore_errors=True)
 
 
 def collection_history(s, cidx):
@@ -233,6 +330,9 @@ def run(s):
     for c in range(150 if q else 5000):
         if s.mine(c):
             collection_history(s, c)
+    for c in range(40 if q else 1500):
+        if s.mine(c):
+            completed_base(s, c)
 
 
 def replay(s, data):
@@ -240,6 +340,10 @@ def replay(s, data):
     if w.get('type') == 'collection':
         judge_collection(s, w['docs'], w.get('n_post', 0), 0, w.get('again_plan', [True, False]))
         return
+    if w.get('type') == 'typed-misuse':
+        return judge_typed_misuse(s, w['ro_txt'], w['doc'], w['how'])
+    if w.get('type') == 'completed-base':
+        return judge_completed_base(s, w['docs'], w['how'])
     if w.get('type') == 'cli-roundtrip':
         import shutil, tempfile
         tmpdir = tempfile.mkdtemp(prefix='verif-c07-')
@@ -259,4 +363,5 @@ def gates(agg, tier):
     K.need(agg, r, K.sig_has(agg, "'collection', True"), 'no strict collection observed')
     K.need(agg, r, K.sig_has(agg, "'collection', False"), 'no non-strict collection observed')
     K.need(agg, r, agg['hist'].get('state_checks', 0) > 0, 'state round-trip facts never recorded')
+    K.need(agg, r, agg['hist'].get('completed_base_merged', 0) > 0, 'no collection over a completed running order was merged')
     return r
